@@ -139,6 +139,8 @@ struct Host {
     acl_problems: Vec<String>,
     /// the key directory was removed by the environment in this history
     dir_removed: bool,
+    /// the environment refuses chown on the key directory (no CAP_CHOWN): its owner cannot be demanded
+    chown_fails: bool,
 }
 
 struct Gate {
@@ -194,7 +196,7 @@ fn start_host(sh: Arc<Shared>) -> MockHost {
                 match std::fs::metadata(KEYS_DIR) {
                     Ok(md) => {
                         let has_key_file = std::fs::read_dir(KEYS_DIR).map(|rd| rd.flatten().any(|e| e.file_name().to_string_lossy().ends_with(".key"))).unwrap_or(false);
-                        if !has_key_file && (md.permissions().mode() & 0o777 != 0o700 || md.uid() != 0) {
+                        if !has_key_file && (md.permissions().mode() & 0o777 != 0o700 || (md.uid() != 0 && !host.chown_fails)) {
                             host.acl_problems.push(format!("key directory has mode {:o} owner {} when the first key is handed out", md.permissions().mode() & 0o777, md.uid()));
                         }
                     }
@@ -264,12 +266,21 @@ impl Child {
     /// `slow_acl`: the environment answers every chown/chmod on the key directory 0.7 s late (strace delay injection
     /// on exactly those calls); the order "directory restricted, then first key requested" must not depend on their speed
     fn spawn(run_dir: &str, seg: usize, slow_acl: bool) -> Child {
+        Self::spawn_env(run_dir, seg, slow_acl, false)
+    }
+    /// `chown_fails`: every chown on the key directory is refused with EPERM (an agent without CAP_CHOWN, as the shipped
+    /// unit file arranges, on a directory somebody else owns)
+    fn spawn_env(run_dir: &str, seg: usize, slow_acl: bool, chown_fails: bool) -> Child {
         use std::os::unix::process::CommandExt;
         let exe = std::env::current_exe().unwrap();
         let out = std::fs::File::create(format!("{run_dir}/child{seg}.stdout")).unwrap();
         let err = std::fs::File::create(format!("{run_dir}/child{seg}.stderr")).unwrap();
         let mut cmd;
-        if slow_acl {
+        if chown_fails {
+            cmd = std::process::Command::new("strace");
+            cmd.args(["-f", "-qq", "-e", "trace=chown,lchown,fchownat", "-e", "inject=chown,lchown,fchownat:error=EPERM", "-P", KEYS_DIR, "-o", "/dev/null"]);
+            cmd.arg(exe);
+        } else if slow_acl {
             cmd = std::process::Command::new("strace");
             cmd.args(["-f", "-qq", "-e", "trace=chown,lchown,fchownat,chmod,fchmodat", "-e", "inject=chown,lchown,fchownat,chmod,fchmodat:delay_enter=700000", "-P", KEYS_DIR, "-o", "/dev/null"]);
             cmd.arg(exe);
@@ -363,6 +374,8 @@ fn scan_bytes(data: &[u8], secrets: &[String], place: &str, hits: &mut Vec<(Stri
                 "status-file"
             } else if place.contains("AuthorizationRules") {
                 "rule-dump"
+            } else if place.starts_with("/tmp") || place.starts_with("/var/tmp") || place.starts_with("/dev/shm") || place.starts_with("/run") {
+                "scratch-directory"
             } else if place.starts_with("client-response") {
                 "client-response"
             } else {
@@ -379,7 +392,8 @@ fn scan_bytes(data: &[u8], secrets: &[String], place: &str, hits: &mut Vec<(Stri
 fn key_dir_check(res: &mut EngineResult, case: &Value, when: &str) {
     if let Ok(md) = std::fs::metadata(KEYS_DIR) {
         let has_key = std::fs::read_dir(KEYS_DIR).map(|rd| rd.flatten().any(|e| e.file_name().to_string_lossy().ends_with(".key"))).unwrap_or(false);
-        if has_key && (md.permissions().mode() & 0o777 != 0o700 || md.uid() != 0) {
+        let chown_fails = case["key_dir_prestate"].as_u64().unwrap_or(0) & 4 != 0;
+        if has_key && (md.permissions().mode() & 0o777 != 0o700 || (md.uid() != 0 && !chown_fails)) {
             res.violation("key-dir-mode", &format!("{when}: the key directory holding key files has mode {:o} owner {}", md.permissions().mode() & 0o777, md.uid()), case.clone());
         }
     }
@@ -388,6 +402,13 @@ fn key_dir_check(res: &mut EngineResult, case: &Value, when: &str) {
 fn clean_state() {
     for d in [KEYS_DIR, LOG_DIR] {
         let _ = std::fs::remove_dir_all(d);
+    }
+    for d in ["/tmp", "/var/tmp", "/dev/shm"] {
+        if let Ok(rd) = std::fs::read_dir(d) {
+            for e in rd.flatten() {
+                let _ = if e.path().is_dir() { std::fs::remove_dir_all(e.path()) } else { std::fs::remove_file(e.path()) };
+            }
+        }
     }
     let _ = std::fs::create_dir_all(LOG_DIR);
     let _ = std::fs::write("/mnt/console", b"");
@@ -402,7 +423,7 @@ fn main() {
     let run_dir = format!("{}/run/c12-{}", std::env::var("VERIF_TARGET").unwrap_or("/verif/target".into()), std::process::id());
     let _ = std::fs::remove_dir_all(&run_dir);
     std::fs::create_dir_all(&run_dir).unwrap();
-    let sh = Arc::new(Shared { host: Mutex::new(Host { enabled: false, latched: None, issued: vec![], fault: None, hist_tag: 0, acl_problems: vec![], dir_removed: false }), gate: Mutex::new(Gate { parked: false, permits: 0, shutdown: false }), cv: Condvar::new() });
+    let sh = Arc::new(Shared { host: Mutex::new(Host { enabled: false, latched: None, issued: vec![], fault: None, hist_tag: 0, acl_problems: vec![], dir_removed: false, chown_fails: false }), gate: Mutex::new(Gate { parked: false, permits: 0, shutdown: false }), cv: Condvar::new() });
     let host = start_host(sh.clone());
 
     // histories
@@ -415,13 +436,15 @@ fn main() {
         vec![Ev::Disable, Ev::Enable, Ev::Restart],
     ];
     let faults = [Ev::AcquireMissingField, Ev::AcquireTrailingGarbage, Ev::AcquireNonHexKey, Ev::AcquireShortHexKey, Ev::AcquireLongHexKey, Ev::Acquire500WithKeyInBody, Ev::StatusMalformed, Ev::Attest500];
-    let mut histories: Vec<(Vec<Ev>, u32)> = Vec::new(); // (events, key dir pre-state: bit 0 = left-over 0755 dir (else absent), bit 1 = chown/chmod on the key directory answer 0.7 s late)
+    let mut histories: Vec<(Vec<Ev>, u32)> = Vec::new(); // (events, key dir pre-state: bit 0 = left-over 0755 dir (else absent), bit 1 = chown/chmod on the key directory answer 0.7 s late, bit 2 = the directory belongs to another user and chown on it fails with EPERM)
     for b in &base {
         histories.push((b.clone(), 0));
     }
     histories.push((vec![Ev::Enable, Ev::Noop], 1));
     histories.push((vec![Ev::Enable, Ev::Noop], 2));
     histories.push((vec![Ev::Enable, Ev::Restart, Ev::Rotate], 3));
+    histories.push((vec![Ev::Enable, Ev::Noop], 5));
+    histories.push((vec![Ev::Enable, Ev::Restart, Ev::Rotate], 5));
     histories.push((vec![Ev::Enable, Ev::KeyDirRemoved, Ev::Rotate, Ev::Noop], 0));
     histories.push((vec![Ev::KeyDirRemoved, Ev::Enable, Ev::Noop], 0));
     histories.push((vec![Ev::Enable, Ev::KeyDirRemoved, Ev::Noop, Ev::Rotate], 0));
@@ -455,17 +478,21 @@ fn main() {
     for (hi, (hist, pre)) in histories.iter().enumerate() {
         clean_state();
         let slow_acl = *pre & 2 != 0;
+        if *pre & 4 != 0 {
+            std::fs::create_dir_all(KEYS_DIR).unwrap();
+            std::os::unix::fs::chown(KEYS_DIR, Some(12345), Some(12345)).unwrap();
+        }
         if *pre & 1 == 1 {
             std::fs::create_dir_all(KEYS_DIR).unwrap();
             std::fs::set_permissions(KEYS_DIR, std::fs::Permissions::from_mode(0o755)).unwrap();
         }
         {
             let mut h = sh.host.lock().unwrap();
-            *h = Host { enabled: false, latched: None, issued: vec![], fault: None, hist_tag: 0xC1200000 + hi as u64, acl_problems: vec![], dir_removed: false };
+            *h = Host { enabled: false, latched: None, issued: vec![], fault: None, hist_tag: 0xC1200000 + hi as u64, acl_problems: vec![], dir_removed: false, chown_fails: *pre & 4 != 0 };
         }
         let case = json!({"history": hist.iter().map(|e| format!("{:?}", e)).collect::<Vec<_>>(), "key_dir_prestate": pre});
         let mut seg = 0usize;
-        let mut child = Child::spawn(&run_dir, seg, slow_acl);
+        let mut child = Child::spawn_env(&run_dir, seg, slow_acl, *pre & 4 != 0);
         let mut responses: Vec<(String, Vec<u8>)> = Vec::new();
         let mut machinery_fail = false;
         if !wait_parked(&sh, 20) {
@@ -493,7 +520,7 @@ fn main() {
                         g.permits = 0;
                     }
                     seg += 1;
-                    child = Child::spawn(&run_dir, seg, slow_acl);
+                    child = Child::spawn_env(&run_dir, seg, slow_acl, *pre & 4 != 0);
                     if !wait_parked(&sh, 20) {
                         machinery_fail = true;
                         break;
@@ -580,6 +607,10 @@ fn main() {
         let mut hits: Vec<(String, String)> = Vec::new();
         scan_tree(LOG_DIR, &secrets, &mut hits, false);
         scan_tree("/var/lib/azure-proxy-agent", &secrets, &mut hits, true);
+        // world-readable scratch locations (the namespace's own): nothing carrying a key may be left there
+        for d in ["/tmp", "/var/tmp", "/dev/shm", "/run"] {
+            scan_tree(d, &secrets, &mut hits, false);
+        }
         for s in 0..=seg {
             for suffix in ["stdout", "stderr"] {
                 if let Ok(d) = std::fs::read(format!("{run_dir}/child{s}.{suffix}")) {
@@ -617,7 +648,7 @@ fn main() {
     res.cov("histories", histories.len() as u64);
     res.cov("keys_issued", keys_issued_total);
     res.cov("exhaustive", true);
-    res.cov("rule", "histories of host events over {enable, disable, rotate, no-op poll, agent restart} and one-shot faults that carry key material (acquire answered with the key but a missing field / trailing garbage / a non-hex key / a well-formed hex key of 128 or 512 bits, 500 with the key in the body, a status document that fails validation, attest 500), with the key directory absent or left over with mode 0755, with chown/chmod on the key directory answering 0.7 s late (strace delay injection), or removed by the environment while the agent runs (before the first latch / before a rotation), or with the stored key files damaged but still containing the key (bytes appended / closing brace lost) before a restart; the whole agent (real start_service, loggers at Trace, production paths) runs as a child process in lock-step with the mock host; after every poll six client requests (allowed IMDS, WireServer, denied, direct, /provision, /provision with notify); afterwards every file under the log/event/status/key directories (key files excepted), stdout/stderr, /dev/console and all client responses are searched for every secret issued (hex any case, raw bytes); non-trivial = history in which a key was issued".to_string());
+    res.cov("rule", "histories of host events over {enable, disable, rotate, no-op poll, agent restart} and one-shot faults that carry key material (acquire answered with the key but a missing field / trailing garbage / a non-hex key / a well-formed hex key of 128 or 512 bits, 500 with the key in the body, a status document that fails validation, attest 500), with the key directory absent or left over with mode 0755, with chown/chmod on the key directory answering 0.7 s late (strace delay injection), or with the directory owned by another user and chown refused with EPERM, or removed by the environment while the agent runs (before the first latch / before a rotation), or with the stored key files damaged but still containing the key (bytes appended / closing brace lost) before a restart; the whole agent (real start_service, loggers at Trace, production paths) runs as a child process in lock-step with the mock host; after every poll six client requests (allowed IMDS, WireServer, denied, direct, /provision, /provision with notify); afterwards every file under the log/event/status/key directories (key files excepted) and under /tmp, /var/tmp, /dev/shm, /run, stdout/stderr, /dev/console and all client responses are searched for every secret issued (hex any case, raw bytes); non-trivial = history in which a key was issued".to_string());
     res.assume("the kernel program is not attached (no kprobes here); the child installs real kernel maps for attribution like the E2 world");
     std::process::exit(res.finish());
 }
